@@ -23,18 +23,27 @@
     - [KProg]: allocate, then reclaim or preempt, on clusters of the
       interchangeable class (identical nodes, 1-GPU single-pod jobs; preempt
       clusters with one or several leaf queues holding pending jobs, the
-      pending jobs in the pop order of the real JobsOrderByQueues).
+      pending jobs in the pop order of the real JobsOrderByQueues; reclaim
+      clusters with the leaf queues in a queue tree of any depth, leaves at
+      different depths: [p_queues] lists EVERY queue of the hierarchy with its
+      parent, Model/ProgressTree.v).
         [monitor_ok]: every pending job for which the hypotheses of
         C05_reclaim_progress / C05_preempt_progress hold by the numbers of the
         generated cluster got an Evict (with it as preemptor) and a
-        TaskPipelined within the cycle.
+        TaskPipelined within the cycle.  Reclaim: the numbers are read on the
+        actual tree: the job keeps its queue and every ancestor within the
+        deserved quota, and for every queue that runs pods the queue of ITS
+        side on the level where the two root-to-leaf paths diverge stays above
+        its deserved quota (C05_reclaim_accepted_on_tree: then
+        CanReclaimResources and Reclaimable say yes).
         [model_agrees]: the model's action (Model/Signatures.v), run with the
-        victims in the observed order, the gates and the reclaim strategy by
-        the numbers of the cluster (deserved quota, observed fair share),
-        serves exactly the jobs the real action served, on the same nodes.
+        victims in the observed order, CanReclaimResources / Reclaimable of
+        Model/Reclaim.v on the numbers of the tree (deserved quota, observed
+        fair share, allocation updated by the model's own commits), serves
+        exactly the jobs the real action served, on the same nodes.
     - [KSig]: function-level correspondence for
       MinimalJobRepresentatives.IsEasierToSchedule / UpdateRepresentative. *)
-From KaiV Require Export Run.Cycle Model.Progress Model.Signatures.
+From KaiV Require Export Run.Cycle Model.Progress Model.Signatures Model.ProgressTree.
 From KaiV Require Model.Capacity.
 From Coq Require Import QArith.
 Open Scope Z_scope.
@@ -296,14 +305,14 @@ Definition conservation_ok (k : acase) : bool := forallb (fun r => negb (starved
 
 (** * KProg *)
 
-Record pqueue := mkPQ { pq_id : positive; pq_deserved : Z; pq_alloc : Z; pq_np : Z; pq_fair : Z }.
-   (* deserved / allocated / allocated non-preemptible in whole units; observed fair share in 1/100 units *)
+(* [pqueue] (Model/ProgressTree.v): id, parent, deserved (-1 = unlimited) / allocated / allocated
+   non-preemptible in whole units (inner queues: the whole subtree); observed fair share in 1/100 units *)
 Record pcase := mkPC {
   p_kind : nat;                   (* 1 reclaim, 2 preempt *)
   p_sigs : bool;
   p_capacity : Z;                 (* units in the cluster *)
   p_units : list snode;           (* free units per node when the action starts *)
-  p_queues : list pqueue;
+  p_queues : list pqueue;         (* every queue of the hierarchy: the leaf queues, then the inner ones *)
   p_running : list rjob;          (* running single-pod jobs; the evicted ones first, in eviction order *)
   p_pending : list pjob;          (* pending single-pod jobs, in pop order *)
   p_evictions : list (positive * positive);   (* observed Evict: victim job, preemptor job *)
@@ -311,7 +320,7 @@ Record pcase := mkPC {
 }.
 
 Definition zcount {A} (f : A -> bool) (l : list A) : Z := Z.of_nat (List.length (filter f l)).
-Definition find_pq (k : pcase) (q : positive) : option pqueue := find (fun x => Pos.eqb (pq_id x) q) (p_queues k).
+Definition find_pq (k : pcase) (q : positive) : option pqueue := find_q (p_queues k) q.
 
 Definition saturated (k : pcase) : bool := forallb (fun n => sn_idle n + sn_rel n <=? 0) (p_units k).
 Definition sum_z (l : list Z) : Z := fold_right Z.add 0 l.
@@ -323,25 +332,51 @@ Fixpoint indexed {A} (i : nat) (l : list A) : list (nat * A) :=
 Definition before_in_queue (k : pcase) (q : positive) (i : nat) (np_only : bool) : Z :=
   zcount (fun p => Pos.eqb (pj_queue p) q && (negb np_only || negb (pj_preempt p))) (firstn i (p_pending k)).
 
-(** the hypotheses of C05_reclaim_progress by the numbers: the cluster is
-    saturated, deserved quotas fit into the cluster (fair share >= deserved),
-    the job and the pending jobs of its queue popped before it stay within the
-    deserved quota, the other queues run enough eligible pods (preemptible, on
-    a node where the pending pod can run) and every other queue that runs pods
-    stays above its deserved quota after all pending jobs were served *)
+(** pending jobs popped before position [i] (exclusive) in queue [a] or below it, all / non-preemptible *)
+Definition before_under (k : pcase) (a : positive) (i : nat) (np_only : bool) : Z :=
+  zcount (fun p => under (p_queues k) a (pj_queue p) && (negb np_only || negb (pj_preempt p))) (firstn i (p_pending k)).
+
+(** the deserved quotas of the leaf queues are finite and fit into the cluster *)
+Definition leaf_quotas_fit (k : pcase) : bool :=
+  let ls := filter (is_leaf (p_queues k)) (p_queues k) in
+  forallb (fun q => 0 <=? pq_deserved q) ls && (sum_z (map pq_deserved ls) <=? p_capacity k).
+
+(** every queue other than [r] that runs pods lies below level [a] (or is [a]): whatever is
+    reclaimed for a job of [r], [a] holds afterwards what it held before *)
+Definition shared_level (k : pcase) (r : positive) (a : pqueue) : bool :=
+  forallb (fun q => Pos.eqb (pq_id q) r
+                    || (zcount (fun v => Pos.eqb (rj_queue v) (pq_id q)) (p_running k) =? 0)
+                    || under (p_queues k) (pq_id a) (pq_id q)) (p_queues k).
+
+(** the hypotheses of C05_reclaim_progress by the numbers, on the actual queue
+    tree (any depth), for the pending job [p] popped at position [i]: the
+    cluster is saturated, the leaf quotas fit into the cluster, the job and the
+    pending jobs popped before it keep the job's queue AND EVERY ANCESTOR within
+    the deserved quota (not asked of an ancestor below which every reclaimable
+    pod runs too: it holds the same after the reclaim as before;
+    non-preemptible: also the non-preemptible part, at every level), the
+    other queues run an eligible pod (preemptible, on a node where the pending
+    pod can run) for each of these jobs, and for every other queue that runs
+    pods the queue of its side ON THE LEVEL WHERE THE TWO ROOT-TO-LEAF PATHS
+    DIVERGE (the queue itself or an ancestor) has a finite deserved quota and is
+    still above it when the [i] jobs popped before [p] have each taken a pod
+    from below it (in the class a served job evicts exactly one pod; a queue may
+    be reclaimed down to its quota: FitsReclaimStrategy looks at what the queue
+    holds before the victim is subtracted) *)
 Definition reclaim_expected (k : pcase) (i : nat) (p : pjob) : bool :=
+  let qs := p_queues k in
   saturated k
-  && (sum_z (map pq_deserved (p_queues k)) <=? p_capacity k)
-  && match find_pq k (pj_queue p) with
-     | Some q => (pq_alloc q + before_in_queue k (pj_queue p) i false + 1 <=? pq_deserved q)
-                 && (pj_preempt p || (pq_np q + before_in_queue k (pj_queue p) i true + 1 <=? pq_deserved q))
-     | None => false
+  && leaf_quotas_fit k
+  && match chain_q qs (pj_queue p) with
+     | [] => false
+     | ch => chain_within ch (pj_preempt p) (shared_level k (pj_queue p))
+                          (fun a => before_under k (pq_id a) i false)
+                          (fun a => before_under k (pq_id a) i true)
      end
-  && (Z.of_nat (List.length (p_pending k))
-      <=? zcount (fun v => negb (Pos.eqb (rj_queue v) (pj_queue p)) && rj_preempt v) (p_running k))
+  && (Z.of_nat i + 1 <=? zcount (fun v => negb (Pos.eqb (rj_queue v) (pj_queue p)) && rj_preempt v) (p_running k))
   && forallb (fun q => Pos.eqb (pq_id q) (pj_queue p)
                        || (zcount (fun v => Pos.eqb (rj_queue v) (pq_id q)) (p_running k) =? 0)
-                       || (pq_deserved q + Z.of_nat (List.length (p_pending k)) <? pq_alloc q)) (p_queues k).
+                       || victim_level_above qs (pj_queue p) (pq_id q) (Z.of_nat i)) qs.
 
 (** the hypotheses of C05_preempt_progress by the numbers: saturated, enough
     strictly lower-priority preemptible pods of the same queue for this job and
@@ -390,14 +425,16 @@ Definition queue_of_job (k : pcase) (jid : positive) : option positive :=
             | None => None
             end
   end.
-Definition in_queue (k : pcase) (q : positive) (jid : positive) : bool :=
-  match queue_of_job k jid with Some q' => Pos.eqb q q' | None => false end.
+(** job [jid] belongs to queue [a] or to a queue below it *)
+Definition in_queue (k : pcase) (a : positive) (jid : positive) : bool :=
+  match queue_of_job k jid with Some q => under (p_queues k) a q | None => false end.
 Definition np_of_job (k : pcase) (jid : positive) : bool :=
   match find (fun p => Pos.eqb (pj_id p) jid) (p_pending k) with
   | Some p => negb (pj_preempt p)
   | None => false
   end.
-(** allocated units of queue [q] in state [st]: the snapshot plus the nominations minus the evictions *)
+(** allocated units of queue [q] (its whole subtree) in state [st]: the snapshot plus the nominations
+    minus the evictions *)
 Definition alloc_in (k : pcase) (st : vstate) (q : positive) (np_only : bool) : Z :=
   match find_pq k q with
   | Some x =>
@@ -407,32 +444,17 @@ Definition alloc_in (k : pcase) (st : vstate) (q : positive) (np_only : bool) : 
          else zcount (fun v => in_queue k q v) (flat_map cm_evicted (vs_log st)))
   | None => 0
   end.
-(** CanReclaimResources by the numbers: within the (observed) fair share; non-preemptible: within the deserved quota *)
-Definition m_can_reclaim (k : pcase) (st : vstate) (p : pjob) : bool :=
-  match find_pq k (pj_queue p) with
-  | Some x => (100 * (alloc_in k st (pj_queue p) false + 1) <=? pq_fair x)
-              && (pj_preempt p || (alloc_in k st (pj_queue p) true + 1 <=? pq_deserved x))
-  | None => false
-  end.
-(** FitsReclaimStrategy by the numbers, victim by victim (each checked before it is subtracted) *)
-Fixpoint strategy_ok (k : pcase) (st : vstate) (p : pjob) (taken : list positive) (ev : list rjob) : bool :=
-  match ev with
-  | [] => true
-  | v :: r =>
-      match find_pq k (rj_queue v), find_pq k (pj_queue p) with
-      | Some eq, Some rq =>
-          let remaining := alloc_in k st (rj_queue v) false - zcount (Pos.eqb (rj_queue v)) taken in
-          ((Z.max (100 * pq_deserved eq) (pq_fair eq) <? 100 * remaining)
-           || ((alloc_in k st (pj_queue p) false + 1 <=? pq_deserved rq) && (pq_deserved eq <? remaining)))
-          && strategy_ok k st p (rj_queue v :: taken) r
-      | _, _ => false
-      end
-  end.
-Definition m_valid (k : pcase) (st : vstate) (p : pjob) (pot : list rjob) : bool :=
-  match rev pot with
-  | v :: _ => strategy_ok k st p [] (filter (on_node (rj_node v)) pot)
-  | [] => false
-  end.
+(** the queue tree with the books of state [st] *)
+Definition tree_in (k : pcase) (st : vstate) : list pqueue :=
+  map (fun x => mkPQ (pq_id x) (pq_parent x) (pq_deserved x) (alloc_in k st (pq_id x) false)
+                     (alloc_in k st (pq_id x) true) (pq_fair x)) (p_queues k).
+(** CanReclaimResources (Model/Reclaim.v) on the numbers: the job's LEAF queue within its (observed)
+    fair share; non-preemptible: within the deserved quota *)
+Definition m_can_reclaim (k : pcase) : vstate -> pjob -> bool := tree_gate (tree_in k).
+(** Reclaimable (Model/Reclaim.v) on the numbers and the evicted victims of the scenario: per victim
+    FitsReclaimStrategy on the pair of queues getLeveledQueues returns (the level where the paths of
+    the reclaimer's and the victim's queue diverge), then the boundaries of the reclaimer's chain *)
+Definition m_valid (k : pcase) : vstate -> pjob -> list rjob -> bool := tree_valid (tree_in k).
 Definition m_np_gate (k : pcase) (st : vstate) (p : pjob) : bool :=
   match find_pq k (pj_queue p) with
   | Some x => pj_preempt p || (alloc_in k st (pj_queue p) true + 1 <=? pq_deserved x)
